@@ -244,13 +244,24 @@ func isGoroutineSafe(lv LValue) bool {
 	}
 }
 
+const readBufioChunk = 8192 // LUAL_BUFFERSIZE
+
 func readBufioSize(reader *bufio.Reader, size int64) ([]byte, error, bool) {
 	result := []byte{}
 	read := int64(0)
 	var err error
 	var n int
+	if size < 0 {
+		size = 1<<63 - 1 // C Lua converts the count to size_t: no limit, read to the end of the file
+	}
 	for read != size {
-		buf := make([]byte, size-read)
+		// never allocate more than a chunk ahead of what is actually there (a huge count used to
+		// allocate all of it: read(2^40) killed the process with "out of memory")
+		want := size - read
+		if want > readBufioChunk {
+			want = readBufioChunk
+		}
+		buf := make([]byte, want)
 		n, err = reader.Read(buf)
 		if err != nil {
 			break
